@@ -37,7 +37,8 @@ def nontrivial(line, kind, row):
 
 
 def secrets(rng, n, tier):
-    s = [rng.rbytes(n), rng.rbytes(n), bytes(n), b"\xff" * n, b"\x01" + bytes(n - 1), bytes(n - 1) + b"\x80"]
+    s = [rng.rbytes(n), rng.rbytes(n), bytes(n), b"\xff" * n, b"\x01" + bytes(n - 1), bytes(n - 1) + b"\x80",
+         b"\x02" + bytes(n - 1), b"\x08" + bytes(n - 1), (bytes(8) + rng.rbytes(8)) * (n // 16) + bytes(n % 16)]
     if tier == "thorough":
         s += [rng.rbytes(n) for _ in range(4)] + [bytes(n // 2) + b"\x10" + bytes(n - n // 2 - 1)]
     return s
@@ -60,6 +61,17 @@ def plan(tier, rng):
     for mlen in ([0, 15, 16, 64] if tier == "quick" else [0, 1, 15, 16, 17, 32, 64, 100, 256]):
         m = rng.rbytes(mlen)
         groups.append((f"poly1305.tag len={mlen}", [["poly1305.tag", H(m), H(s)] for s in secrets(rng, 32, tier)]))
+    # final reduction of Poly1305 on explicit accumulator states: below p, exactly p-1 / p / p+1, top of the range, carries
+    M = (1 << 26) - 1
+    states = [[0] * 5, [M - 5, M, M, M, M], [M - 4, M, M, M, M], [M - 3, M, M, M, M], [M, M, M, M, M], [M, M + 60, M, M, M],
+              [rng.getrandbits(26) for _ in range(5)], [rng.getrandbits(26) for _ in range(5)], [5, 0, 0, 0, 0], [M, M, M, M, 0]]
+    pad = [rng.getrandbits(32) for _ in range(4)]
+    groups.append(("poly1305.finish_state", [["poly1305.finish_state", "1,2,3,4,5", ",".join(map(str, pad)), ",".join(map(str, h))]
+                                             for h in states]))
+    # tags on messages that drive the accumulator to the top of its range (public message all-ones, small r)
+    for mlen in (16, 32):
+        groups.append((f"poly1305.tag ff*{mlen}", [["poly1305.tag", "ff" * mlen, H(k)] for k in
+                                                  [bytes([r]) + bytes(31) for r in (1, 2, 3, 4)] + [rng.rbytes(32), b"\xff" * 32]]))
     for (alg, klens) in (("hmac.sha256", [32, 64, 65] if tier == "quick" else [0, 1, 32, 63, 64, 65, 130]),
                          ("hmac.sha512", [64] if tier == "quick" else [32, 128, 129])):
         for kl in klens:
